@@ -89,7 +89,8 @@ def run(tier, seed):
     import crashengine as ce
     cjobs = [("cr%d" % i, ["--seed", str(rng.randrange(1 << 30)), "--steps", "30", "--blocks", "44", "--cpus", "2",
                            "--keys", "3", "--ttl", "1", "--end", "leak", "--sessions", "4", "--maximages", "0",
-                           "--cc", "0", "--flushpct", "10"]) for i in range(10 if tier == "quick" else 80)]
+                           "--cc", "0", "--flushpct", "10"] + (["--futurepct", "30"] if i % 2 else []))
+             for i in range(12 if tier == "quick" else 80)]
     v3, st3, _ = ce.run_and_validate(PROP, fxv, rd, cjobs, ["AutoNeverOlder"])
     viol += v3
     st["traces"] += st3["traces"]
